@@ -18,7 +18,7 @@ class B:
         cmd = [os.path.join(flexdir, "flex")] + list(cli) + ([] if outname == "" else ["-o", self.out]) + ["p.l"]
         p = subprocess.run(cmd, cwd=self.wd, stdout=subprocess.PIPE, stderr=subprocess.PIPE, text=True, errors="replace", env=dict(os.environ, LC_ALL="C"), timeout=60)
         self.frc, self.ferr, self.fout = p.returncode, p.stderr, p.stdout
-        self.ctext = ""; self.crc = -1; self.cout = ""; self.rrc = -1; self.rout = ""; self.rerr = ""; self.syms = set()
+        self.ctext = ""; self.crc = -1; self.cout = ""; self.rrc = -1; self.rout = ""; self.rerr = ""; self.syms = set(); self.allsyms = set()
         cpath = os.path.join(self.wd, self.out)
         if self.frc == 0 and os.path.exists(cpath):
             self.ctext = open(cpath, errors="replace").read()
@@ -28,6 +28,8 @@ class B:
             if self.crc == 0:
                 nm = subprocess.run(["nm", "-g", "--defined-only", "p.o"], cwd=self.wd, stdout=subprocess.PIPE, text=True).stdout
                 self.syms = {l.split()[-1] for l in nm.splitlines() if len(l.split()) == 3}
+                nma = subprocess.run(["nm", "--defined-only", "p.o"], cwd=self.wd, stdout=subprocess.PIPE, text=True).stdout
+                self.allsyms = {l.split()[-1] for l in nma.splitlines() if len(l.split()) == 3}
                 if link:
                     srcs = ["p.o"]
                     if extra_src:
@@ -91,6 +93,8 @@ def probes(fd):
     add("bufsize", None, "bufsize=777", lambda b: (okrun(b) and "buf=777" in b.rout, b.rout), sect3='int main(void) { printf("buf=%d\\n", (int)YY_BUF_SIZE); return 0; }')
     add("yydecl", None, 'yydecl="int mylex(void)"', lambda b: (okrun(b) and "hits=1" in b.rout, b.rout + b.cout[-200:]), sect3='int main(void) { while (mylex()) ; printf("hits=%d\\n", hits); return 0; }')
     add("yyterminate", None, 'yyterminate="return 42"', lambda b: (okrun(b) and "ret=42" in b.rout, b.rout), sect3='int main(void) { int r = yylex(); printf("ret=%d\\n", r); return 0; }', inp=b"")
+    add("yyterminate_c99", None, 'emit="c99" yyterminate="return 42"', lambda b: (okrun(b) and "ret=42" in b.rout, b.rout + b.cout[-200:]),
+        sect3='int main(void) { yyscan_t s; int r; yylex_init(&s); r = yylex(s); printf("ret=%d\\n", r); yylex_destroy(s); return 0; }', inp=b"")
     add("preaction", None, 'pre-action="npre++;"', lambda b: (okrun(b) and "pre=4" in b.rout, b.rout))
     add("preaction_bol", None, 'pre-action="npre++;"', lambda b: (okrun(b) and "pre=4" in b.rout, b.rout),
         rules=["^a+   { hits++; }", "a+  { hits++; }", "\\n   ;", ".    ;"])
@@ -102,7 +106,9 @@ def probes(fd):
     add("noyyread", None, "noyyread", lambda b: (okrun(b) and "fed=1" in b.rout, b.rout + b.cout[-300:]),
         top="static int fed;", sect3='int yyread(char *buf, size_t max) { if (fed) return 0; fed = 1; buf[0] = \'a\'; return 1; }\nint main(void) { while (yylex()) ; printf("fed=%d\\n", fed); return 0; }')
     add("nofunction", None, "noyy_scan_string noyy_scan_bytes noyy_scan_buffer", lambda b: (b.crc == 0 and not ({"yy_scan_string", "yy_scan_bytes", "yy_scan_buffer"} & b.syms), sorted(b.syms)[:30]), run=False, link=False)
-    add("noinput", None, "noinput nounput", lambda b: (b.crc == 0 and not re.search(r"^(static )?int yyinput \(", b.ctext, re.M) and not re.search(r"^\s*(static )?void yyunput_r", b.ctext, re.M), "yyinput()/yyunput_r() still generated"), run=False, link=False)
+    # the routines are compiled out (#define YY_NO_YYINPUT / no yyunput_r at all): judged on the object file, static functions
+    # included, not on the text, which still holds the source of yyinput() inside the #ifndef
+    add("noinput", None, "noinput nounput", lambda b: (b.crc == 0 and b.allsyms and not ({"yyinput", "yyunput_r", "yyunput"} & b.allsyms), sorted(s for s in b.allsyms if "put" in s)), run=False, link=False)
     add("yyclass", ["-+", "--yyclass=Mine"], 'c++ yyclass="Mine"', lambda b: (b.frc == 0 and "Mine::yylex" in b.ctext, ""), cxx=True, run=False, link=False,
         top="#include <FlexLexer.h>\nclass Mine : public yyFlexLexer { public: int yylex(); };", sect3="")
     add("tablesfile", ["--tables-file=p.tables"], 'tables-file="p.tables"', lambda b: (b.frc == 0 and os.path.exists(os.path.join(b.wd, "p.tables")), b.ferr[:100]), run=False, link=False)
